@@ -138,6 +138,10 @@ def oracle(script: dict, run: Any) -> List[Violation]:
             out.append(Violation("C07/labels-differ", f"delivery {d}: result labels {user_labels(s['labels'])} != message labels {want_labels}"))
         # a failing backend never prevents completion
         sx = h.first(d, "save_exit")
+        if sx is not None and not sx[5].get("ok") and t[5]["ackable"] and (script["config"].get("ack_type") or "when_saved") == "when_saved" \
+                and h.first(d, "ack_call") is None:
+            out.append(Violation("C07/not-acknowledged-after-backend-failure", f"delivery {d}: the result backend failed and the message never completed processing "
+                                 "(its when_saved acknowledgement is missing)", d=d))
         if cbx[5].get("how") != "ok":
             out.append(Violation("C07/processing-aborted", f"delivery {d}: callback ended with {cbx[5].get('how')} (store ok={sx[5].get('ok') if sx else None})"))
         # stored copy (object / JSON / pickle) agrees
